@@ -7,6 +7,8 @@
 //! trusted: assume_specification for Result::or_else (std definition)
 //! trusted: env: PaymentConstraints {2 fields} skeleton; BlindedHopFeatures opaque with external_body empty()/requires_unknown_bits_from() (unconstrained)
 //! trusted: env: struct UpdateAddHTLC{amount_msat,cltv_expiry}, ChannelConfig{3 fields}, PaymentRelay{3 fields} are field skeletons of the real structs; enum LocalHTLCFailureReason restricted to the 5 variants used; FundedChannel/ChannelContext self skeleton (R5) whose config()/prev_config() accessors are external_body returning the two stored configs
+//! trusted: R15 (deep slice): do_chain_event sweeps pending_intercepted_htlcs with a retain closure under a mutex; the unit extracts the closure's keep/fail-back test verbatim as a function of (htlc, height); the pushed failure and the log are dropped; PendingAddHTLCInfo/PendingHTLCInfo skeletons {outgoing_cltv_value}
+//! assume: intercepted forwards have outgoing_cltv_value >= HTLC_FAIL_BACK_BUFFER (they passed check_incoming_htlc_cltv); otherwise the u32 subtraction in the sweep underflows
 //! assume: cur_height <= 2^31-1 (block heights)
 //! assume: Logger callbacks do not panic (R3)
 use vstd::prelude::*;
@@ -227,6 +229,26 @@ pub struct HTLCOutputInCommitment { pub cltv_expiry: u32, pub offered: bool }
     htlc.cltv_expiry <= height + CLTV_CLAIM_BUFFER
 //@with
     htlc.cltv_expiry < height + CLTV_CLAIM_BUFFER
+//@end
+// ---- when a held (intercepted) forward is given up (deep R15 slice of do_chain_event's sweep over pending_intercepted_htlcs) ----
+pub struct PendingHTLCInfo { pub outgoing_cltv_value: u32 }
+pub struct PendingAddHTLCInfo { pub forward_info: PendingHTLCInfo }
+//@extract lightning/src/ln/channelmanager.rs :: impl ChannelManager :: fn do_chain_event
+//@slice R15
+    intercepted_htlcs.retain(|_, htlc| { if $cond { $body:any false } else { true } });
+//@with
+    fn intercepted_htlc_is_failed_back(htlc: &PendingAddHTLCInfo, height: u32) -> bool {
+        if $cond { false } else { true }
+    }
+//@ret kept
+//@requires
+    htlc.forward_info.outgoing_cltv_value >= HTLC_FAIL_BACK_BUFFER, height <= 0x7fff_ffff,
+//@ensures P C08 a-held-forward-that-is-not-failed-back-still-has-more-than-the-fail-back-buffer-to-run
+    kept <==> height as int + HTLC_FAIL_BACK_BUFFER < htlc.forward_info.outgoing_cltv_value,
+//@mutant held_forward_kept_until_the_grace_period
+    HTLC_FAIL_BACK_BUFFER
+//@with
+    LATENCY_GRACE_PERIOD_BLOCKS
 //@end
 // (P, C08) with the heights above, the forwarding race of lemma_forward_race is the one the monitor really runs:
 // downstream silent => on chain at outgoing + LATENCY; upstream claimable (preimage known) => on chain from incoming - CLTV_CLAIM_BUFFER
